@@ -114,7 +114,7 @@ def run_c18(tier, seed):
     violations = []
 
     def bad(key, **kw):
-        if len(violations) < 40:
+        if len(violations) < 400:
             violations.append({"case_key": key, **kw})
 
     def check(h, hist, label="h"):
@@ -245,7 +245,7 @@ def run_c18(tier, seed):
         "evaluations": evals, "distinct_nontrivial": len(distinct),
         "rule": f"generated hybrid classes (scalars, string, scalar arrays 1-d/2-d, nested hybrid, nested-in-nested, Ref to hybrid, renamed fields); every history of length <= {L} "
                 f"(sampled: {len(hists)}) over {len(ops)} operations; DressInv and the operation contract after every step; distinct by history",
-        "exhaustive": False, "violations": violations[:6], "samples": [{"history": list(hists[0])}],
+        "exhaustive": False, "violations": _by_key(violations), "samples": [{"history": list(hists[0])}],
     }
 
 
@@ -268,7 +268,7 @@ def run_c19(tier, seed):
     violations = []
 
     def bad(key, **kw):
-        if len(violations) < 40:
+        if len(violations) < 400:
             violations.append({"case_key": key, **kw})
 
     # ---- hybrid dictionaries
@@ -326,7 +326,14 @@ def run_c19(tier, seed):
             bad(f"json:raised:zero-or-empty-fields:{type(e).__name__}", problem=str(e)[:200], value=(sc, nn, lb, ww))
     # ---- json form of reference-free structs and 1-d arrays
     sl = grammar.Slice(tier)
-    cands = [c for c in sl.roots if (X.struct.is_struct(c) or (X.array.is_array(c) and len(c._shape) == 1)) and not getattr(c, "_has_refs", False)]
+    def only_1d(c):
+        """the JSON form covers structs and one-dimensional arrays: no N-d array anywhere inside"""
+        if X.array.is_array(c):
+            return len(c._shape) == 1 and only_1d(c._itemtype)
+        if X.struct.is_struct(c):
+            return all(only_1d(f.ftype) for f in c._fields)
+        return True
+    cands = [c for c in sl.roots if (X.struct.is_struct(c) or X.array.is_array(c)) and only_1d(c) and not getattr(c, "_has_refs", False)]
     for cls in cands:
         for rep in range(3 if tier == "quick" else 12):
             val = sl.value(cls, rnd)
@@ -344,7 +351,7 @@ def run_c19(tier, seed):
         "evaluations": evals, "distinct_nontrivial": len(distinct),
         "rule": "hybrid classes with/without defaults and default factories, renamed fields, nested hybrids, values incl. values equal to the defaults: "
                 "from_dict(to_dict(h)) == h and default elision; reference-free structs and 1-d arrays of the grammar slice: T(x._to_json()) == x; distinct by (class, value)",
-        "exhaustive": False, "violations": violations[:6], "samples": samples,
+        "exhaustive": False, "violations": _by_key(violations), "samples": samples,
     }
 
 
@@ -352,3 +359,11 @@ def grammar_key(X, cls):
     from .objects_native import type_key
 
     return type_key(X, cls)
+
+
+def _by_key(violations, cap=12):
+    """one representative per case key (known findings must not crowd out new violations)"""
+    seen = {}
+    for v in violations:
+        seen.setdefault(v.get("case_key"), v)
+    return list(seen.values())[:cap]
